@@ -42,6 +42,9 @@ def main():
         extra = ""
     else:
         wt = os.environ.get("SEED_APPLY", os.path.join(SRC, "apply"))
+        if not os.path.isdir(wt):  # scratch worktree of /repo, outside /repo and /verif; remove it when done:
+            os.makedirs(os.path.dirname(wt), exist_ok=True)  # git -C /repo worktree remove --force <wt>
+            sh("git -C /repo worktree add --detach %s HEAD" % wt)
         sh("git -C %s checkout -- . && git -C %s clean -fdq" % (wt, wt))
         head = sh("git -C /repo rev-parse HEAD").stdout.strip()
         sh("git -C %s checkout -q --detach %s" % (wt, head))  # the scratch tree follows /repo's HEAD
